@@ -67,6 +67,14 @@ def queries(tier, seed):
                             add(alg, s, d, dims, pads, T_, None, (-1, -1))
                         else:
                             add(alg, s, d, dims, pads, Q_ if qk else T_)
+    # image operator== / !=: same shape (one pixel may differ) and same pixel count in a different shape
+    for pix, planar, pn in (('gil::rgb8_pixel_t', 0, 'rgb8i'), ('gil::rgb8_pixel_t', 1, 'rgb8p'), ('gil::gray16_pixel_t', 0, 'gray16i')):
+        for (w, h) in ((3, 2), (2, 3), (1, 4), (2, 2), (0, 2)):
+            for (ex, ey) in ((-1, -1), (w - 1, h - 1), (0, 0)):
+                if w == 0 and ex >= 0: continue
+                qk = (w, h) in ((3, 2), (1, 4)) and (ex, ey) != (0, 0) and (pn != 'gray16i' or (w, h) == (3, 2))
+                qs.append(Q('image_eq/%s/%dx%d_d%s%s' % (pn, w, h, ex if ex >= 0 else 'n', ey if ey >= 0 else 'n'), 'C04/imgeq.cpp', 'h_image_eq', defs=dict(IMG_PIX=pix, IMG_PLANAR=planar),
+                            params=[w, h, 0, 0, 0, 0, ex, ey], unwind=3 * max(w, h) + 8, rt_unwind=(max(w, h) + 2) * 4 + 6, tier=Q_ if qk else T_, timeout=300))
     names = set(); out = []
     for q in qs:
         if q.name in names: continue
